@@ -13,7 +13,7 @@ RULE = ("success/failure schedules injected into RandomWalk.update_positions. En
         "up to the tier's length (quick 9, thorough 13; bit = one placement step fails) x 14 residue-graph shapes "
         "(paths, stars, rings, ring with tail; 0-3 pre-positioned residues) x rewind depth 1..4 through the real "
         "RandomWalk.run_molecule in a large empty box. Generated part: 1-3 molecules through the real "
-        "BuildSystem._compose_system/_handle_random_walk with drawn schedules long enough to abandon whole "
+        "BuildSystem._compose_system/_handle_random_walk with drawn schedules (one in four also scripting the trial level inside the real update_positions: all trials but the last permitted one rejected / all rejected) long enough to abandon whole "
         "attempts. History invariants are checked through wrappers around the neighbour engine at every step "
         "(parent positioned, nothing later in growth order positioned, other molecules and supplied residues "
         "bit-identical, one position per residue at the end, no start placement when the molecule already has "
